@@ -376,7 +376,18 @@ def addTrustedRoot (t : Time) (root : Cert) : Bool :=
     | some (_, some p) => decide (p ≤ 1)
     | _ => true
 
-/-! ## Specification, written from the property sentence
+/-! ## Specification: the property sentence, clause by clause
+
+Each clause of the sentence below is one predicate (`Issues`, `Covers`, `LeafProfile`,
+`AuthorityProfile`, `NoUnknownCritical`, node / fabric id).  The predicates are small enough that
+each coincides with one block of `add_cert` / `verify_usage` (`addCert_ok_iff`); what the `iff`
+theorems of `Props/C19.lean` add is that the sequential checker applies every clause to every
+certificate at the right position and skips none by an early exit — NOT an independent notion of
+what a valid signature or a well-formed Matter certificate is.  Readings the sentence leaves open
+are decided, with `example`s, at the end of `Props/C19.lean` (authority kind not tied to position;
+the root's own fabric id not compared; key identifiers required to link up; the leaf-profile
+disjunct of `RootValid`).  The signature clause is symbolic: `sigBy` is a free field that names a
+key and binds no content.
 
 "An operational certificate chain is accepted iff every certificate is signed by the next one up
 to a self-signed root that is the trusted root for the purpose at hand, issuer and subject link
@@ -454,7 +465,9 @@ def UpdateValid (t : Time) (fabric : FabricView) (csrKey : KeyId) (noc : Cert) (
   ChainValid t fabric.root noc icac ∧ (∀ ic ∈ icac, ic.akid ≠ ic.skid) ∧ noc.pubKey = csrKey ∧
   fabricIdOf noc.subject = some fabric.fabricId
 
-/-- a stand-alone root is acceptable as a trusted root -/
+/-- what `AddTrustedRootCertificate` stages (the CODE's contract: the `LeafProfile` disjunct is there
+because `finalise` at depth 0 runs the leaf branch; the sentence's notion is `C19.RootValidStrict`,
+and a leaf-shaped root is inert: `C19.leaf_shaped_root_unusable`) -/
 def RootValid (t : Time) (root : Cert) : Prop :=
   Issues root root ∧ Covers t root ∧ NoUnknownCritical root ∧
   (AuthorityProfile root 0 ∨ LeafProfile root) ∧ ∀ n ∈ root.bc.bind Prod.snd, n ≤ 1
